@@ -46,7 +46,7 @@ SCHED = {'log': None, 'lock': None, 'delays': None}
 def plan(tier, seed):
     if tier == 'quick':
         return [{'id': f'r{k}', 'k': k, 'n': 1} for k in range(8)]
-    return [{'id': f'r{k}', 'k': k, 'n': 3} for k in range(36)]
+    return [{'id': f'r{k}', 'k': k, 'n': 2} for k in range(24)]
 
 
 # ------------------------------------------------------------ worker side
